@@ -55,17 +55,8 @@ def enum_val(ename, prog, variant, payload=()):
 
 def install_repo_contracts(ex, clock=None):
     """contracts for repo functions whose bodies are I/O, time or hash plumbing (stated in the evidence)"""
-    ex.clock = clock if clock is not None else {}
-
-    def now_2022(ex_, p, m, a, func, fr):
-        now = ex_.clock.setdefault('aead_2022', fresh('now2022', BV64))
-        return [dict(value=res_ok((now, 'u64'))), dict(cond=fresh('clockerr', z3.BoolSort()), value=res_err(Opaque('SystemTimeError')))]
-
-    def now_vmess(ex_, p, m, a, func, fr):
-        now = ex_.clock.setdefault('vmess', fresh('nowvmess', BV64))
-        return [dict(value=res_ok((now, 'i64'))), dict(cond=fresh('clockerr', z3.BoolSort()), value=res_err(Opaque('SystemTimeError')))]
-    ex.overrides.append((re.compile(r'(^|::)aead_2022::now$'), now_2022))
-    ex.overrides.append((re.compile(r'(^|::)vmess::now$'), now_vmess))
+    if clock is not None:
+        ex.clock = clock
 
     def kdf16(ex_, p, m, a, func, fr):
         return one(Arr(fresh_bytes('kdf16'), 'u8', 16))
